@@ -81,7 +81,7 @@ package snap
 // what coverage of a vertex gives the descent: on every level the vertex's own pixel is stored and contains the vertex
 //@ lemma cover_in(ix S_pointindex_PointIndex, p A2_Real, l Int)
 //@   prelude arith morton
-//@   requires wfIndex(ix) && indexGrid(ix) && roundGrid(ix) && ptCovered(ix, p) && inGridF(ix, p) && 0 <= l && l <= ix.deepestLevel
+//@   requires wfIndex(ix) && indexGrid(ix) && tallY(ix) && ptCovered(ix, p) && inGridF(ix, p) && 0 <= l && l <= ix.deepestLevel
 //@   use coord_bound(pxOf(p), ix.intExtent[0], ix.deepestRes, ix.deepestLevel) && coord_bound(pyOf(p), ix.intExtent[1], ix.deepestRes, ix.deepestLevel)
 //@   use pix_contains(pxOf(p), ix.intExtent[0], ix.deepestRes, ix.deepestLevel, l) && pix_contains(pyOf(p), ix.intExtent[1], ix.deepestRes, ix.deepestLevel, l)
 //@   use div_bound(coordX(ix, p), ix.deepestLevel, l) && div_bound(coordY(ix, p), ix.deepestLevel, l)
@@ -95,7 +95,8 @@ package snap
 //@   requires forall(a, 0, len(polygon), forall(b, 0, len(polygon[a]), segCoordOK(polygon[a][b])))
 // for the "no points found" guard (C06): a well-formed, round index in which every vertex of the polygon is covered on
 // every level (what InsertPolygon establishes), and no requested level deeper than the index
-//@   requires[C06] wfIndex(ix) && indexGrid(ix) && roundGrid(ix) && allInGrid(ix, polygon) && allCovered(ix, polygon)
+//@   requires wfIndex(ix) && allInGrid(ix, polygon)
+//@   requires[C06] indexGrid(ix) && tallY(ix) && allCovered(ix, polygon)
 //@   requires[C06] forall(i, 0, len(levels), levels[i] <= ix.deepestLevel)
 //@   maypanic
 //@   nopanic[C06] cleanupNewVertices
@@ -115,8 +116,10 @@ package snap
 //@     invariant 0 - 1 <= v && v < len(ring) && ringLen == len(ring)
 //@     invariant (len(ring) > 0 ==> indexInv(ix)) && !isNil(ix.hitOnce) && !isNil(ix.hitMultiple) && !isNil(newRing) && !isNil(levelMap)
 //@     invariant[C06] len(levelMap) > 0 && levelsOK(ix, levelMap)
-//@     invariant[C06] forall(i Int, 0 <= i && i < len(ring) ==> ptCovered(ix, ring[i]) && inGridF(ix, ring[i]), trigger(ring[i]))
+//@     invariant forall(i Int, 0 <= i && i < len(ring) ==> inGridF(ix, ring[i]), trigger(ring[i]))
+//@     invariant[C06] forall(i Int, 0 <= i && i < len(ring) ==> ptCovered(ix, ring[i]), trigger(ring[i]))
 //@     loopuse v + 1 < len(ring) ==> forall(l Int, cover_in(ix, ring[v + 1], l), trigger(hasKey(levelMap, l)))
+//@     loopuse ix.deepestLevel >= 1 ==> even_span(pow2(ix.deepestLevel - 0), ix.deepestRes) && pow2_step(ix.deepestLevel)
 //@     decreases len(ring) - v
 //@   loop level#2 as it2
 //@     invariant !isNil(newRing)
@@ -146,7 +149,7 @@ package snap
 //@ func SnapPolygon
 //@   prelude arith tmsaxis lists morton
 //@   requires len(tmIDs) > 0 && forall(i, 0, len(tmIDs), 0 <= tmIDs[i] && tmIDs[i] <= 1000 && indexable(tileMatrixSet, tmIDs[i]))
-//@   requires !xyErr(tileMatrixSet) && tmsRound(tileMatrixSet, sliceMax(tmIDs))
+//@   requires !xyErr(tileMatrixSet) && tmsTall(tileMatrixSet, sliceMax(tmIDs))
 //@   requires forall(a, 0, len(polygon), forall(b, 0, len(polygon[a]), segCoordOK(polygon[a][b])))
 //@   maypanic
 //@   loop level as it1
